@@ -334,6 +334,41 @@ def heater_cmd(plat, c, l, base):
     return scenario
 
 
+def heater_sequence(plat, c, l, base):
+    """a unit command, its echo, then a target-temperature command on the same connection: the set point the spa
+    stores is the requested temperature in the unit now in force"""
+    def scenario(sx):
+        w = World(sx, plat, c, l, base)
+        h_ = w.facade.water_heater
+        acc = w.spa.accessors
+        w.symbolise(["TempUnits", "SetpointG"])
+        _ = (h_.target_temperature, h_.current_temperature)        # the client has read its temperatures before
+
+        def command(coro):
+            del w.sent[:]
+            w.loop = type(w.loop)()
+            from sx.vloop import FakeDatagramTransport
+            w.proto.transport = FakeDatagramTransport(w.loop, w.proto, w._on_send)
+            w.run(coro)
+            sx.check(len(w.sent) == 1 and w.sent[0][0] == b"SPACK", "cmd.heater-sequence.one-command", lambda: str(len(w.sent)))
+            ok, h = w.decode_spack(w.sent[0][1])
+            w.apply_and_echo(h.position, h.new_data)
+            return h
+        unit = ["C", "F"][sx.choice("unit", 2)]
+        command(h_.async_set_temperature_unit(unit))
+        sx.check(acc["TempUnits"].value == unit, "cmd.heater-sequence.unit-reads-back")
+        lo, hi = (15, 40) if unit == "C" else (59, 104)
+        t = [float(lo), float(hi), (lo + hi) // 2 + 0.5][sx.choice("temperature", 3)]
+        h = command(h_.async_set_target_temperature(t))
+        ref = int(t * 18.0) if unit == "C" else int(t * 10.0 - 320)
+        a = acc["SetpointG"]
+        sx.check((h.position == a.pos) & (len(h.new_data) == a.length), "cmd.heater-sequence.addresses-item")
+        got = refmodel.raw(refmodel.record_of(a), w.spa_block)
+        sx.observe("stored", got)
+        sx.check(got == ref, "cmd.heater-sequence.stored-value", lambda: f"{got} vs {ref} ({t} {unit})")
+    return scenario
+
+
 def sx_int(f):
     from sx.loader import sx_int as I
     from sx.core import SymFloat
@@ -385,4 +420,5 @@ def units(tier):
                 yield Unit(f"pump-sequence.{tag}.ones{ones}", pump_sequence(plat, c, l, base, all_pairs=True),
                            max_paths=200000, presets={"sibling_bits_all_ones": ones})
         yield Unit(f"heater.{tag}", heater_cmd(plat, c, l, base), max_paths=20000, ratio_floats=True)
+        yield Unit(f"heater-sequence.{tag}", heater_sequence(plat, c, l, base), max_paths=20000, ratio_floats=True)
         yield Unit(f"watercare.{tag}", watercare_cmd(plat, c, l, base))
